@@ -43,6 +43,7 @@ ASSIGN = [
     ("assign", ("bsel", t, c2, 2), e),                             # part select, offset may run off the end
     ("assign", ("wsel", t, c2, 2), d),
     ("assign", ("bsel", t, c1, 3), ("u", "inv", d)),               # offset too narrow to reach the top of the target, window wider than 1
+    ("assign", ("cat", ("wsel", u, ("k", 1), 2), ("slice", t, 0, 2, None)), ("b", "+", d, ("c", 9, 4, False))),   # constant-offset word straddling the end, followed by another part
     ("assign", ("cat", ("idx", t, 0), u), ("b", "*", d, e)),       # concatenation of two targets, signed product
     ("assign", ("arr", c1, t, u), d),                              # array element
     ("assign", ("u", "as_signed", t), e),
@@ -51,7 +52,7 @@ ASSIGN = [
     ("assign", t, ("c", -1, 1, True)),
     ("assign", ("idx", u, -1), ("c", 1, 1, False)),
 ]
-SMALL = [ASSIGN[i] for i in (0, 1, 3, 6, 9, 10)]
+SMALL = [ASSIGN[i] for i in (0, 1, 3, 6, 10, 11)]
 CONDS = [c1, c2, c3, ("b", "==", c2, ("c", 2, 2, False)), ("u", "inv", c1), ("c", 0, 1, False), ("c", 1, 1, False)]
 TESTS = [c2, c3, ("cat", c1, c1), ("slice", d, 0, 0, None)]       # last one: zero-width test
 
